@@ -32,6 +32,7 @@ var c19Perturbs = []string{
 	"none", "format-unknown", "format-swap", "missing-top", "truncate", "truncate", "bitflip", "bitflip", "random-bytes",
 	"count-drop-value", "count-add-key", "count-add-link", "count-drop-link", "count-huge",
 	"swap-keys", "dup-key", "reverse-compare", "zero-compare", "raise-height", "raise-height", "change-bf", "corrupt-key",
+	"empty-link", "local-swap-compare", "local-swap-compare",
 }
 
 func genC19(t *rapid.T, tier string) C19Case {
@@ -352,6 +353,42 @@ func runC19(c C19Case, o *run.Obs) error {
 			k[c.A%len(k)] = []byte(`{"unexpected":[1,2`)
 			return k, v, l, 0
 		})
+	case "empty-link":
+		// the root record names the node "" (a populated root whose link was blanked): that node does not exist
+		if root.Link == nil {
+			applied = false
+			break
+		}
+		empty := ""
+		root.Link = &empty
+	case "local-swap-compare":
+		// the loader's order is the writer's order with two adjacent keys of the top node exchanged (a consistent
+		// total order, but not the one the node was written under): under it the node's keys are not ascending
+		if top == nil || len(top.Keys) < 2 {
+			applied = false
+			break
+		}
+		i := c.A % (len(top.Keys) - 1)
+		if len(top.Keys) >= 3 {
+			i = 1 + c.A%(len(top.Keys)-2) // not the first pair
+		}
+		x, err1 := w.Cfg.UnmarshalKey(top.Keys[i])
+		y, err2 := w.Cfg.UnmarshalKey(top.Keys[i+1])
+		if err1 != nil || err2 != nil {
+			applied = false
+			break
+		}
+		sigma := func(k interface{}) interface{} {
+			if r, err := defCmp(k, x); err == nil && r == 0 {
+				return y
+			}
+			if r, err := defCmp(k, y); err == nil && r == 0 {
+				return x
+			}
+			return k
+		}
+		customCmp = true
+		cmp = func(a, b interface{}) (int, error) { return defCmp(sigma(a), sigma(b)) }
 	case "reverse-compare":
 		customCmp = true
 		cmp = func(a, b interface{}) (int, error) { r, err := defCmp(a, b); return -r, err }
@@ -375,7 +412,7 @@ func runC19(c C19Case, o *run.Obs) error {
 	}
 	w2.Cache, _ = core.MakeCache(c.Cfg.Cache)
 	switch c.Perturb {
-	case "reverse-compare", "zero-compare", "raise-height", "change-bf", "none":
+	case "reverse-compare", "zero-compare", "local-swap-compare", "raise-height", "change-bf", "none":
 		// perturbations of the loader configuration / root record only: the top node may come from the
 		// writer's warm cache and must be checked like a freshly loaded one. (With a swapped format a
 		// cached, already deserialized node is never decoded, so "undecodable" cannot be observed there:
@@ -410,7 +447,7 @@ func runC19(c C19Case, o *run.Obs) error {
 	}
 	// structurally valid but semantically wrong: the class most likely to be accepted silently
 	switch c.Perturb {
-	case "swap-keys", "dup-key", "reverse-compare", "zero-compare", "raise-height", "change-bf", "count-drop-value", "count-add-key", "count-add-link", "count-drop-link":
+	case "swap-keys", "dup-key", "reverse-compare", "zero-compare", "local-swap-compare", "raise-height", "change-bf", "count-drop-value", "count-add-key", "count-add-link", "count-drop-link":
 		o.NonTrivial = true
 	}
 	return nil
